@@ -78,6 +78,7 @@ def _expand(batch):
                 # determinism test: rebuild the same history, same fingerprint
                 S2 = replay(spec, hist)
                 spec.apply(S2, op)
+                spec.check(S2)
                 if digest(spec.key(S2)) != k:
                     raise run.HarnessError("non-deterministic replay of %r" % (h2,))
                 det_checked += 1
